@@ -56,19 +56,19 @@ theorem fixed_end_step_shapes :
 /-! ## 1. `split_eq_single` — TEMPO, mean-field TEMPO -/
 
 /-- the fault-free computation of exactly `k` steps on a fresh object -/
-def faultFree (ops : List MicroOp) (time : Int → Rat) (k : Nat) : Obj :=
+def faultFree (ops : Int → List MicroOp) (time : Int → Rat) (k : Nat) : Obj :=
   (stepLoop noFault ops time k (startObj time 0 Obj.fresh)).1
 
-theorem stepLoop_noFault_ok (ops : List MicroOp) (time : Int → Rat) (n : Nat) (o : Obj) :
+theorem stepLoop_noFault_ok (ops : Int → List MicroOp) (time : Int → Rat) (n : Nat) (o : Obj) :
     (stepLoop noFault ops time n o).2 = true := by
   induction n generalizing o with
   | zero => rfl
   | succ n ih =>
-    have : (backendStep noFault ops o.b).2 = true := runOps_noFault_ok _ _ _
+    have : (backendStep noFault (ops o.b.core.step) o.b).2 = true := runOps_noFault_ok _ _ _
     simp only [stepLoop, this, if_true]
     exact ih _
 
-private theorem fresh_pre (ops : List MicroOp) (time : Int → Rat) : Pre ops time Obj.fresh 0 :=
+private theorem fresh_pre (ops : Int → List MicroOp) (time : Int → Rat) : Pre ops time Obj.fresh 0 :=
   Or.inl ⟨rfl, rfl, rfl, rfl⟩
 
 private theorem toNat_step (endStep : Rat → Int) (k : Nat) (e : Rat) :
@@ -76,7 +76,7 @@ private theorem toNat_step (endStep : Rat → Int) (k : Nat) (e : Rat) :
 
 /-- Invariant of fault-free histories: after the targets `l` the object is in the canonical
     state of step `max k (max over l of endStep)`. -/
-private theorem hist_noFault (ops : List MicroOp) (hinc : lastSetStep ops = some ⟨1, 1⟩)
+private theorem hist_noFault (ops : Int → List MicroOp) (hinc : ∀ k, lastSetStep (ops k) = some ⟨1, 1⟩)
     (endStep : Rat → Int) (numStep : Int → Rat → Int)
     (hns : ∀ k e, numStep k e = max 0 (endStep e - k))
     (time : Int → Rat) (hm : ∀ a b : Int, a ≤ b → time a ≤ time b)
@@ -141,7 +141,7 @@ theorem foldl_max_eq {α} (g : α → Nat) (T : α) (l : List α) (hT : T ∈ l)
     for this part.  Hypotheses: the step-count rule of `compute` (`hns`, an `rfl` fact about
     the generated functions, see `tempo_split_eq_single`), monotone end-step function and
     monotone labels. -/
-theorem split_eq_single (ops : List MicroOp) (hinc : lastSetStep ops = some ⟨1, 1⟩)
+theorem split_eq_single (ops : Int → List MicroOp) (hinc : ∀ k, lastSetStep (ops k) = some ⟨1, 1⟩)
     (endStep : Rat → Int) (hmono : ∀ a b : Rat, a ≤ b → endStep a ≤ endStep b)
     (numStep : Int → Rat → Int) (hns : ∀ k e, numStep k e = max 0 (endStep e - k))
     (time : Int → Rat) (hm : ∀ a b : Int, a ≤ b → time a ≤ time b)
@@ -161,7 +161,7 @@ theorem split_eq_single (ops : List MicroOp) (hinc : lastSetStep ops = some ⟨1
 
 /-- **already-reached targets are no-ops**: nothing at all changes — no backend step, no
     user-callable invocation, no new entry in the dynamics — for any fault oracle. -/
-theorem reached_target_noop (ops : List MicroOp) (endStep : Rat → Int)
+theorem reached_target_noop (ops : Int → List MicroOp) (endStep : Rat → Int)
     (numStep : Int → Rat → Int) (hns : ∀ k e, numStep k e = max 0 (endStep e - k))
     (time : Int → Rat) (faulty : Oracle) (o : Obj) (hs : o.started = true) (e : Rat)
     (h : endStep e ≤ o.b.core.step) :
@@ -180,8 +180,8 @@ theorem reached_target_noop (ops : List MicroOp) (endStep : Rat → Int)
     with whatever exception class (`Oracle.base`), whichever calls therefore failed — the
     object is exactly in the state of a fault-free
     computation of some number `k` of steps: nothing is skipped, doubled or shifted. -/
-theorem history_canonical (ops : List MicroOp) (hsafe : faultSafe ops = true)
-    (hinc : lastSetStep ops = some ⟨1, 1⟩) (numStep : Int → Rat → Int)
+theorem history_canonical (ops : Int → List MicroOp) (hsafe : ∀ k, faultSafe (ops k) = true)
+    (hinc : ∀ k, lastSetStep (ops k) = some ⟨1, 1⟩) (numStep : Int → Rat → Int)
     (time : Int → Rat) (hm : ∀ a b : Int, a ≤ b → time a ≤ time b)
     (faulty : Oracle) (e : Rat) (es : List Rat) :
     ∃ k : Nat, (runHist numStep time 0 ops faulty (e :: es) Obj.fresh).view =
@@ -211,8 +211,8 @@ theorem history_canonical (ops : List MicroOp) (hsafe : faultSafe ops = true)
     has just failed.  Either this call fails again, or it leaves exactly the object that a
     single fault-free `compute(e)` on a fresh object leaves: the same dynamics as if no failure
     had ever happened. -/
-theorem retry_after_fault (ops : List MicroOp) (hsafe : faultSafe ops = true)
-    (hinc : lastSetStep ops = some ⟨1, 1⟩)
+theorem retry_after_fault (ops : Int → List MicroOp) (hsafe : ∀ k, faultSafe (ops k) = true)
+    (hinc : ∀ k, lastSetStep (ops k) = some ⟨1, 1⟩)
     (endStep : Rat → Int) (numStep : Int → Rat → Int)
     (hns : ∀ k e, numStep k e = max 0 (endStep e - k))
     (time : Int → Rat) (hm : ∀ a b : Int, a ≤ b → time a ≤ time b)
@@ -258,76 +258,107 @@ private theorem tempo_hns (s dt : Rat) : ∀ k e,
 private theorem mft_hns (s dt : Rat) : ∀ k e,
     mft_num_step s dt k e = max 0 (get_number_of_steps s e dt - k) := fun _ _ => rfl
 
+/-- **The ordering obligation, decided on the regenerated lists** (each with
+    `compute_system_step` spliced in, so the evaluation of the bath correlations by
+    `self._influence` — user callable 9 — is part of the list): in every memory regime and at
+    every step, every user callable is invoked before anything that an exception would leave
+    behind, and the step advances the counter by one.  This is what breaks when the counter is
+    advanced before the propagators are evaluated, when the rollback handler is narrowed or made
+    inexact, or when the influence look-ahead is moved behind the network update. -/
+theorem tempo_steps_safe (dkmax : Option Int) (k : Int) :
+    faultSafe (tempoOpsAt dkmax k) = true ∧ lastSetStep (tempoOpsAt dkmax k) = some ⟨1, 1⟩ := by
+  unfold tempoOpsAt
+  cases dkmax with
+  | none =>
+    exact (by decide : faultSafe tempo_step_nocutoff = true ∧
+      lastSetStep tempo_step_nocutoff = some ⟨1, 1⟩)
+  | some d => simp only []; split <;> decide
+
+theorem mft_steps_safe (dkmax : Option Int) (k : Int) :
+    faultSafe (mftOpsAt dkmax k) = true ∧ lastSetStep (mftOpsAt dkmax k) = some ⟨1, 1⟩ := by
+  unfold mftOpsAt
+  cases dkmax with
+  | none =>
+    exact (by decide : faultSafe mft_step_nocutoff = true ∧
+      lastSetStep mft_step_nocutoff = some ⟨1, 1⟩)
+  | some d => simp only []; split <;> decide
+
 /-- `Tempo`: any split of compute calls = one call with the furthest target (`dt > 0`). -/
-theorem tempo_split_eq_single (s dt : Rat) (hdt : 0 < dt) (targets : List Rat) (T : Rat)
+theorem tempo_split_eq_single (dkmax : Option Int) (s dt : Rat) (hdt : 0 < dt) (targets : List Rat) (T : Rat)
     (hT : T ∈ targets) (hmax : ∀ x ∈ targets, x ≤ T) :
-    (runHist (tempo_num_step s dt) (tempo_time s dt) tempo_init_step tempo_compute_step noFault
+    (runHist (tempo_num_step s dt) (tempo_time s dt) tempo_init_step (tempoOpsAt dkmax) noFault
         targets Obj.fresh).view =
-    (compute (tempo_num_step s dt) (tempo_time s dt) tempo_init_step tempo_compute_step noFault
+    (compute (tempo_num_step s dt) (tempo_time s dt) tempo_init_step (tempoOpsAt dkmax) noFault
         Obj.fresh T).1.view :=
-  split_eq_single tempo_compute_step (by decide) (fun e => get_number_of_steps s e dt)
+  split_eq_single (tempoOpsAt dkmax) (fun k => (tempo_steps_safe dkmax k).2) (fun e => get_number_of_steps s e dt)
     (fun _ _ h => FloatGrid.steps_mono s dt hdt h) _ (tempo_hns s dt) _
     (FloatGrid.gridTime_mono s dt hdt.le) targets T hT hmax
 
 /-- `MeanFieldTempo`: the same. -/
-theorem mft_split_eq_single (s dt : Rat) (hdt : 0 < dt) (targets : List Rat) (T : Rat)
+theorem mft_split_eq_single (dkmax : Option Int) (s dt : Rat) (hdt : 0 < dt) (targets : List Rat) (T : Rat)
     (hT : T ∈ targets) (hmax : ∀ x ∈ targets, x ≤ T) :
-    (runHist (mft_num_step s dt) (mft_time s dt) mft_init_step mft_compute_step noFault
+    (runHist (mft_num_step s dt) (mft_time s dt) mft_init_step (mftOpsAt dkmax) noFault
         targets Obj.fresh).view =
-    (compute (mft_num_step s dt) (mft_time s dt) mft_init_step mft_compute_step noFault
+    (compute (mft_num_step s dt) (mft_time s dt) mft_init_step (mftOpsAt dkmax) noFault
         Obj.fresh T).1.view :=
-  split_eq_single mft_compute_step (by decide) (fun e => get_number_of_steps s e dt)
+  split_eq_single (mftOpsAt dkmax) (fun k => (mft_steps_safe dkmax k).2) (fun e => get_number_of_steps s e dt)
     (fun _ _ h => FloatGrid.steps_mono s dt hdt h) _ (mft_hns s dt) _
     (FloatGrid.gridTime_mono s dt hdt.le) targets T hT hmax
 
-/-- `Tempo`: the statement order of the current `TempoBackend.compute_step` is fault-safe,
-    hence a repeated call after a failure of the Hamiltonian / rates / Lindblad operators
-    fails again or gives the no-failure result.  (`by decide` on the regenerated list: this is
+/-- `Tempo`: the statement order of the current `TempoBackend.compute_step` — with
+    `compute_system_step` spliced in, for every memory regime — is fault-safe, hence a repeated
+    call after a failure of the Hamiltonian / rates / Lindblad operators OR of the bath
+    correlation function (user callable 9, evaluated by `self._influence`) fails again or gives
+    the no-failure result.  (`by decide` on the regenerated list: this is
     the obligation that breaks when the counter is advanced before the propagators are
     evaluated.) -/
-theorem tempo_retry_after_fault (s dt : Rat) (hdt : 0 < dt) (faulty : Oracle)
+theorem tempo_retry_after_fault (dkmax : Option Int) (s dt : Rat) (hdt : 0 < dt) (faulty : Oracle)
     (pre : List Rat) (e : Rat) (hpre : ∀ x ∈ pre, x ≤ e) :
-    let r := compute (tempo_num_step s dt) (tempo_time s dt) tempo_init_step tempo_compute_step
-      faulty (runHist (tempo_num_step s dt) (tempo_time s dt) tempo_init_step tempo_compute_step
+    let r := compute (tempo_num_step s dt) (tempo_time s dt) tempo_init_step (tempoOpsAt dkmax)
+      faulty (runHist (tempo_num_step s dt) (tempo_time s dt) tempo_init_step (tempoOpsAt dkmax)
         faulty pre Obj.fresh) e
     r.2 = false ∨ r.1.view =
-      (compute (tempo_num_step s dt) (tempo_time s dt) tempo_init_step tempo_compute_step
+      (compute (tempo_num_step s dt) (tempo_time s dt) tempo_init_step (tempoOpsAt dkmax)
         noFault Obj.fresh e).1.view :=
-  retry_after_fault tempo_compute_step (by decide) (by decide)
+  retry_after_fault (tempoOpsAt dkmax) (fun k => (tempo_steps_safe dkmax k).1)
+    (fun k => (tempo_steps_safe dkmax k).2)
     (fun e => get_number_of_steps s e dt) _ (tempo_hns s dt) _
     (FloatGrid.gridTime_mono s dt hdt.le) faulty pre e
     (fun x hx => FloatGrid.steps_mono s dt hdt (hpre x hx))
 
 /-- `MeanFieldTempo`: the same for failures of the field equation of motion (any of its three
     evaluations per step) and of the Hamiltonians. -/
-theorem mft_retry_after_fault (s dt : Rat) (hdt : 0 < dt) (faulty : Oracle)
+theorem mft_retry_after_fault (dkmax : Option Int) (s dt : Rat) (hdt : 0 < dt) (faulty : Oracle)
     (pre : List Rat) (e : Rat) (hpre : ∀ x ∈ pre, x ≤ e) :
-    let r := compute (mft_num_step s dt) (mft_time s dt) mft_init_step mft_compute_step
-      faulty (runHist (mft_num_step s dt) (mft_time s dt) mft_init_step mft_compute_step
+    let r := compute (mft_num_step s dt) (mft_time s dt) mft_init_step (mftOpsAt dkmax)
+      faulty (runHist (mft_num_step s dt) (mft_time s dt) mft_init_step (mftOpsAt dkmax)
         faulty pre Obj.fresh) e
     r.2 = false ∨ r.1.view =
-      (compute (mft_num_step s dt) (mft_time s dt) mft_init_step mft_compute_step
+      (compute (mft_num_step s dt) (mft_time s dt) mft_init_step (mftOpsAt dkmax)
         noFault Obj.fresh e).1.view :=
-  retry_after_fault mft_compute_step (by decide) (by decide)
+  retry_after_fault (mftOpsAt dkmax) (fun k => (mft_steps_safe dkmax k).1)
+    (fun k => (mft_steps_safe dkmax k).2)
     (fun e => get_number_of_steps s e dt) _ (mft_hns s dt) _
     (FloatGrid.gridTime_mono s dt hdt.le) faulty pre e
     (fun x hx => FloatGrid.steps_mono s dt hdt (hpre x hx))
 
 /-- all histories / all fault sequences, for both objects -/
-theorem tempo_history_canonical (s dt : Rat) (hdt : 0 < dt) (faulty : Oracle)
+theorem tempo_history_canonical (dkmax : Option Int) (s dt : Rat) (hdt : 0 < dt) (faulty : Oracle)
     (e : Rat) (es : List Rat) :
     ∃ k : Nat, (runHist (tempo_num_step s dt) (tempo_time s dt) tempo_init_step
-        tempo_compute_step faulty (e :: es) Obj.fresh).view =
-      (faultFree tempo_compute_step (tempo_time s dt) k).view :=
-  history_canonical tempo_compute_step (by decide) (by decide) _ _
+        (tempoOpsAt dkmax) faulty (e :: es) Obj.fresh).view =
+      (faultFree (tempoOpsAt dkmax) (tempo_time s dt) k).view :=
+  history_canonical (tempoOpsAt dkmax) (fun k => (tempo_steps_safe dkmax k).1)
+    (fun k => (tempo_steps_safe dkmax k).2) _ _
     (FloatGrid.gridTime_mono s dt hdt.le) faulty e es
 
-theorem mft_history_canonical (s dt : Rat) (hdt : 0 < dt) (faulty : Oracle)
+theorem mft_history_canonical (dkmax : Option Int) (s dt : Rat) (hdt : 0 < dt) (faulty : Oracle)
     (e : Rat) (es : List Rat) :
     ∃ k : Nat, (runHist (mft_num_step s dt) (mft_time s dt) mft_init_step
-        mft_compute_step faulty (e :: es) Obj.fresh).view =
-      (faultFree mft_compute_step (mft_time s dt) k).view :=
-  history_canonical mft_compute_step (by decide) (by decide) _ _
+        (mftOpsAt dkmax) faulty (e :: es) Obj.fresh).view =
+      (faultFree (mftOpsAt dkmax) (mft_time s dt) k).view :=
+  history_canonical (mftOpsAt dkmax) (fun k => (mft_steps_safe dkmax k).1)
+    (fun k => (mft_steps_safe dkmax k).2) _ _
     (FloatGrid.gridTime_mono s dt hdt.le) faulty e es
 
 /-- non-vacuity of the instances: the binary64 grid `start = 0`, `dt = 0.1` (`0 < dt`), targets
@@ -336,26 +367,28 @@ theorem mft_history_canonical (s dt : Rat) (hdt : 0 < dt) (faulty : Oracle)
 example : (0 : Rat) < lit 1 1 ∧ lit 5 1 ∈ [lit 3 1, lit 2 1, lit 5 1] ∧
     (∀ x ∈ [lit 3 1, lit 2 1, lit 5 1], x ≤ lit 5 1) ∧
     (runHist (tempo_num_step 0 (lit 1 1)) (tempo_time 0 (lit 1 1)) tempo_init_step
-      tempo_compute_step noFault [lit 3 1, lit 2 1, lit 5 1] Obj.fresh).dyn.times.length = 6 := by
+      (tempoOpsAt (some 2)) noFault [lit 3 1, lit 2 1, lit 5 1] Obj.fresh).dyn.times.length = 6 := by
   decide +kernel
 
 /-- non-vacuity (hypotheses of the general theorems are met by a concrete instance): the
     regenerated TEMPO step list with an integer time grid; a 3-target history; a fault oracle
-    that makes the 2nd and the 5th user-callable invocation raise. -/
-example : faultSafe tempo_compute_step = true ∧ lastSetStep tempo_compute_step = some ⟨1, 1⟩ ∧
+    that makes the 2nd user-callable invocation (the bath correlations of step 1) raise. -/
+example : (∀ k, faultSafe (tempoOpsAt none k) = true) ∧
+    (∀ k, lastSetStep (tempoOpsAt none k) = some ⟨1, 1⟩) ∧
     (∀ a b : Int, a ≤ b → idxTime a ≤ idxTime b) ∧
     (∀ a b : Rat, a ≤ b → a.floor ≤ b.floor) := by
-  refine ⟨by decide, by decide, idxTime_mono, fun a b h => ?_⟩
+  refine ⟨fun k => (tempo_steps_safe none k).1, fun k => (tempo_steps_safe none k).2,
+    idxTime_mono, fun a b h => ?_⟩
   exact Int.floor_le_floor h
 
 /-- … and the fault really bites in that instance: the first call fails, the retry completes
     at step 3 with the four grid states. -/
 example :
     let numStep : Int → Rat → Int := fun k e => max 0 (e.floor - k)
-    let faulty : Oracle := ⟨fun n => n == 1 || n == 4, fun n => n == 4⟩
-    let o1 := compute numStep idxTime 0 tempo_compute_step faulty Obj.fresh 3
-    let o2 := compute numStep idxTime 0 tempo_compute_step faulty o1.1 3
-    o1.2 = false ∧ o2.2 = true ∧ o2.1.dyn.times.length = 4 ∧ o2.1.b.calls = 4 := by
+    let faulty : Oracle := ⟨fun n => n == 1, fun n => n == 1⟩
+    let o1 := compute numStep idxTime 0 (tempoOpsAt none) faulty Obj.fresh 3
+    let o2 := compute numStep idxTime 0 (tempoOpsAt none) faulty o1.1 3
+    o1.2 = false ∧ o2.2 = true ∧ o2.1.dyn.times.length = 4 ∧ o2.1.b.calls = 8 := by
   decide +kernel
 
 /-! ## 2. `idempotent` — PT-TEMPO, Gibbs TEMPO -/
